@@ -4,10 +4,11 @@
     list, prod, sumbool, sumor).  N / positive / nat stay the extracted inductives. *)
 Require Extraction.
 Require Import ExtrOcamlBasic.
-From Yarl Require Import Base.PyStr Model.Path Spec.Rds Preds.P15 Model.Quoters Model.Prog.
+From Yarl Require Import Base.PyStr Model.Path Spec.Rds Preds.P15 Model.Quoters Model.Prog Preds.Obs Preds.P10.
 
 Extraction "model.ml"
   exn_eqb bind normalize_path normalize_path_segments remove_dot_segments split join
   c15_np_pred
   quote_n unquote_n
-  run_observe run_compare split_url split_netloc.
+  run_observe run_compare split_url split_netloc
+  c10_pred c10_trans_pred.
